@@ -101,6 +101,16 @@ fn corpus() -> Vec<(&'static str, P, P)> {
             POh { w: vec![0], e: vec![], s: vec![0], t: vec![] },
             POh { w: vec![0], e: vec![], s: vec![0], t: vec![] },
         ),
+        (
+            "g_looks_like_identity_but_merges",
+            POh { w: vec![0, 0, 1], e: vec![e(0, &[0], &[1, 2])], s: vec![0], t: vec![0, 1, 2] },
+            POh { w: vec![0, 0, 1], e: vec![], s: vec![0, 0, 2], t: vec![0, 0, 2] },
+        ),
+        (
+            "f_looks_like_identity_but_merges",
+            POh { w: vec![0, 0], e: vec![], s: vec![1, 1], t: vec![1, 1] },
+            POh { w: vec![0, 0, 1], e: vec![e(0, &[0, 1], &[2])], s: vec![0, 1], t: vec![2] },
+        ),
         ("stress_zigzag_10k", zf2, zg2),
     ]
 }
@@ -333,7 +343,16 @@ impl Monitor for C01 {
         };
         let mut f = f;
         let mut g = g;
-        if r.chance(1, 3) {
+        let mut force_unique = false;
+        if ctx.thorough && r.chance(1, 12) {
+            // medium band (<= 40 nodes / 30 hyperedges); unique edge labels keep the search cheap
+            let (f2, g2) = gen::composable_pair(r, &OhParams::medium());
+            f = f2;
+            g = g2;
+            force_unique = true;
+            ctx.class("medium_band");
+        }
+        if force_unique || r.chance(1, 3) {
             // unique edge labels: a mis-attached hyperedge changes the isomorphism class
             gen::uniquify_edge_labels(&mut f);
             for (k, e) in g.e.iter_mut().enumerate() {
@@ -361,7 +380,7 @@ impl Monitor for C01 {
             return;
         }
         self.judge(ctx, "random", &f, &g);
-        if r.chance(1, 3) && f.w.len() + g.w.len() <= 16 {
+        if r.chance(1, 3) && (f.w.len() + g.w.len() <= 16 || force_unique) {
             self.judge_lax(ctx, &f, &g, r);
         }
     }
